@@ -339,3 +339,24 @@ PROPS["C08"] = Prop(
     technique="runtime monitor: before/after reference model of hwloc_topology_restrict keyed by gp_index with SET arithmetic, plus WF and CANON-unchanged oracles, under gcc ASan+UBSan+LSan",
     level_text="exploration: generated topologies x sets x all flag words, applied once and repeatedly; every call is checked against the documented effect computed independently",
 )
+
+
+PROPS["C05"] = Prop(
+    "C05",
+    [Stage("asan", "c05_xmlroundtrip", "asan", quick=6000, thorough=150000, per_worker_env=xml_backend_env)],
+    rule=("one derived topology per case (synthetic or corpus XML under a random configuration, optional restrict, 0-13 annotating calls: "
+          "Misc objects, infos/subtypes with XML-special characters, distances, memattr registrations and values, cpukinds; userdata on "
+          "25% of the objects exported plain and base64 with lengths 0..50): v3 export by buffer or file -> import from an exact-size "
+          "copy -> CANON equality (tree, sets, attributes, infos, page types, distances, memattrs, cpukinds, topology infos, support "
+          "under IMPORT_SUPPORT), userdata callback log equality, byte fixpoint of a second export, v2-format export -> same tree and "
+          "sets. The 16 workers cover the 4 (export, import) back-end pairs. distinct+non-trivial = class 1: topologies carrying >= 3 "
+          "of {complete != main sets, escaped characters, userdata, distances, memattr values, cpukinds, special objects, page types, "
+          "infos}, keyed by (feature vector, shape)"),
+    nontrivial_classes=[1], floor=100,
+    assumptions=COMMON_ASSUME + [
+        "names, subtypes, infos and plain userdata use printable ASCII only (export.h documents that other characters are dropped)",
+        "reload keeps every type (Groups with KEEP_STRUCTURE: the API refuses KEEP_ALL); filters, flags and is_thissystem are not compared",
+        "support bits are compared only under IMPORT_SUPPORT"],
+    technique="runtime monitor: canonical-dump equality, byte fixpoint and userdata callback log over export/import of derived topologies for each XML back-end pair, under gcc ASan+UBSan+LSan",
+    level_text="exploration: derived topologies x {buffer,file} x 4 back-end pairs x {v3,v2}; equality is decided on a dump obtained through the public API only",
+)
